@@ -7,8 +7,11 @@
 (* appends the pieces to the real Path in every supported way.              *)
 EXTENDS PathInterp, TLC
 CONSTANTS MaxCmds, NVar
-VARIABLES cuts
-allvars == <<vars, cuts>>
+VARIABLES cuts,     \* positions (number of commands before) at which the data was cut
+          alone,    \* <<valid, interpreter state>> of the current piece interpreted ON ITS OWN
+          parts     \* <<valid, segs>> of the finished pieces interpreted on their own
+allvars == <<vars, cuts, alone, parts>>
+IInit == <<NONE, NONE, NONE, 0, <<>>>>
 
 Pool(v) == IF v = 1 THEN <<3, 1, -2, 5, 4, -3>> ELSE <<-1, 4, 6, 2, -5, -2>>
 ArcPool(v) == IF v = 1 THEN <<5, 3, 30, 0, 1, 4, -3>> ELSE <<2, 7, -45, 1, 0, -5, 2>>
@@ -21,15 +24,25 @@ JustCut == cuts # <<>> /\ cuts[Len(cuts)] = Len(hist)
 Split == /\ hist # <<>> /\ ~JustCut /\ Len(hist) < MaxCmds
          /\ cur' = RecCur /\ zp' = RecZp /\ ctl' = RecCtl[1] /\ deg' = RecCtl[2]
          /\ cuts' = Append(cuts, Len(hist))
+         /\ parts' = Append(parts, <<alone[1], alone[2][5]>>)
+         /\ alone' = <<TRUE, IInit>>
          /\ UNCHANGED <<segs, hist>>
 
 Step == /\ Len(hist) < MaxCmds
         /\ \E l \in Letters, v \in 1..NVar, impl \in BOOLEAN, cz \in BOOLEAN :
               /\ impl => ~JustCut          \* a piece begins with a command letter
               /\ Do(<<l, Args(l, v, cz), impl, cz>>)
-        /\ UNCHANGED cuts
+              \* the same command interpreted by a stand-alone Path(piece): defined only when the
+              \* piece begins with a move (a leading relative move is then absolute)
+              /\ alone' = IF alone[1] /\ (alone[2][1] # NONE \/ Upper(l) = "M")
+                             THEN <<TRUE, Exec(alone[2], <<l, Args(l, v, cz), impl, cz>>)>>
+                             ELSE <<FALSE, alone[2]>>
+        /\ UNCHANGED <<cuts, parts>>
 
-InitC == Init /\ cuts = <<>>
+InitC == Init /\ cuts = <<>> /\ alone = <<TRUE, IInit>> /\ parts = <<>>
+\* a piece that begins with an ABSOLUTE move means the same alone as in continuation
+AbsMoveSame == (alone[1] /\ alone[2][5] # <<>> /\ hist[(IF cuts = <<>> THEN 0 ELSE cuts[Len(cuts)]) + 1][1] = "M")
+                 => SubSeq(segs, Len(segs) - Len(alone[2][5]) + 1, Len(segs)) = alone[2][5]
 Next == Split \/ Step
 \* the split is invisible to the interpreter
 SplitInvisible == [][Split => UNCHANGED <<cur, zp, ctl, deg>>]_allvars
